@@ -210,7 +210,7 @@ def _ints(ctx):
         return interp.call(f, [value, K('n'), lo, hi])
 
     def setup(interp):
-        interp.call_raises['int'] = ['ValueError']
+        interp.call_raises['int'] = ['ValueError', 'TypeError']
     outcomes, _i = extract(world, thunk, setup=setup)
 
     def oracle(v):
